@@ -64,10 +64,10 @@ where
         let [t7, t6, t5, t4, t3, t2, t1, t0] = self.get_trace_values();
 
         // --- read the randomness from memory ----------------------------------------------------
-        let alpha = self.get_randomness();
+        let alpha = self.get_randomness()?;
 
         // --- read the OOD values from memory ----------------------------------------------------
-        let [tz, tgz] = self.get_ood_values();
+        let [tz, tgz] = self.get_ood_values()?;
 
         // --- read the accumulator values from stack ---------------------------------------------
         let [p, r] = self.read_accumulators();
@@ -125,22 +125,22 @@ where
     }
 
     /// Returns randomness.
-    fn get_randomness(&mut self) -> QuadFelt {
+    fn get_randomness(&mut self) -> Result<QuadFelt, ExecutionError> {
         let ctx = self.system.ctx();
-        let addr = self.stack.get(14);
-        let word = self.chiplets.read_mem(ctx, addr.as_int() as u32);
+        let addr = Self::get_valid_address(self.stack.get(14))?;
+        let word = self.chiplets.read_mem(ctx, addr);
         let a0 = word[0];
         let a1 = word[1];
-        QuadFelt::new(a0, a1)
+        Ok(QuadFelt::new(a0, a1))
     }
 
     /// Returns the OOD values.
-    fn get_ood_values(&mut self) -> [QuadFelt; 2] {
+    fn get_ood_values(&mut self) -> Result<[QuadFelt; 2], ExecutionError> {
         let ctx = self.system.ctx();
-        let addr = self.stack.get(13);
-        let word = self.chiplets.read_mem(ctx, addr.as_int() as u32);
+        let addr = Self::get_valid_address(self.stack.get(13))?;
+        let word = self.chiplets.read_mem(ctx, addr);
 
-        [QuadFelt::new(word[0], word[1]), QuadFelt::new(word[2], word[3])]
+        Ok([QuadFelt::new(word[0], word[1]), QuadFelt::new(word[2], word[3])])
     }
 
     /// Reads the accumulator values.
